@@ -12,7 +12,7 @@ Definition Fn : num := {|
 
 Definition Fx : xnum := {|
   base := Fn; pinf := infinity; ninf := neg_infinity; qnan := nan;
-  isnan := is_nan; absx := abs; sqrtx := PrimFloat.sqrt |}.
+  isnan := is_nan; absx := abs; negx := PrimFloat.opp; sqrtx := PrimFloat.sqrt |}.
 
 (* bit-level equality (NaNs identified): distinguishes the sign of zero *)
 Definition fsame (x y : float) : bool :=
